@@ -137,6 +137,47 @@ fn no_spin() {}
 #[kani::proof]
 #[kani::unwind(18)]
 #[kani::stub(core::hint::spin_loop, no_spin)]
+fn c28_monotone_discontiguous_three_requests() {
+    // Three consecutive symbolic requests: every page handed out must come from a chunk the resource obtained from the
+    // VM map, so a later growth of the space can never hand the same pages out again (pairwise disjoint grants).
+    let vm_map = leak_map();
+    let layout = mmtk::util::heap::vm_layout::VMLayout::new_64bit();
+    let idx: usize = kani::any();
+    kani::assume(idx >= 1 && idx <= 15);
+    let space_start = idx << layout.log_space_extent;
+    let space_end = space_start + (1usize << layout.log_space_extent);
+    let d = SpaceDescriptor::create_descriptor_from_heap_range(addr(space_start), addr(space_end));
+    vm_map.insert(addr(space_start), 1usize << layout.log_space_extent, d);
+    let pr = MonotonePageResource::<KVM0>::new_discontiguous(vm_map);
+    let n: [usize; 3] = [kani::any(), kani::any(), kani::any()];
+    kani::assume(n[0] >= 1 && n[0] <= 1024 && n[1] >= 1 && n[1] <= 1024 && n[2] >= 1 && n[2] <= 1024);
+    let mut s = [0usize; 3];
+    let mut e = [0usize; 3];
+    let mut k = 0;
+    while k < 3 {
+        let r = pr.reserve_pages(n[k]);
+        match pr.get_new_pages(d, r, n[k], VMThread::UNINITIALIZED) {
+            Ok(res) => {
+                assert!(res.pages == n[k], "C28.discontiguous.grant_has_requested_pages");
+                s[k] = res.start.as_usize();
+                e[k] = s[k] + n[k] * PAGE;
+            }
+            Err(_) => assert!(false, "C28.discontiguous.request_succeeds"),
+        }
+        assert!(s[k] % PAGE == 0 && s[k] >= space_start && e[k] <= space_end, "C28.discontiguous.grant_inside_space_page_aligned");
+        k += 1;
+    }
+    assert!(e[0] <= s[1] || e[1] <= s[0], "C28.discontiguous.grants_are_disjoint");
+    assert!(e[0] <= s[2] || e[2] <= s[0], "C28.discontiguous.grants_are_disjoint");
+    assert!(e[1] <= s[2] || e[2] <= s[1], "C28.discontiguous.grants_are_disjoint");
+    assert!(pr.committed_pages() == n[0] + n[1] + n[2] && pr.reserved_pages() == n[0] + n[1] + n[2], "C28.discontiguous.counters_equal_pages_granted");
+    kani::cover!(n[0] == 1024 && n[1] < 1024 && n[2] == 1024, "C28.cover.exact_chunk_then_small_then_growth");
+    kani::cover!(s[1] == e[0] && s[2] != e[1], "C28.cover.second_fits_third_grows");
+}
+
+#[kani::proof]
+#[kani::unwind(18)]
+#[kani::stub(core::hint::spin_loop, no_spin)]
 fn c28_monotone_discontiguous_map64() {
     let vm_map = leak_map();
     let layout = mmtk::util::heap::vm_layout::VMLayout::new_64bit();
